@@ -116,6 +116,8 @@ type Exec struct {
 	nBorrow    int
 	nWFrame    int
 	coverPCs   map[string][]*Term
+	loopCoverPCs map[string][]*Term
+	loopCoverPos map[string]string
 	coverPos   map[string]string
 	curRets    []*Term
 	replayOff  bool
@@ -420,6 +422,10 @@ func verifyFunction(u *Universe, fi *FuncInfo, c *Contract) (obls []*Obligation,
 	}
 	if len(outs.brk) > 0 || len(outs.cont) > 0 {
 		x.fail(fi.Body, "break/continue outside loop")
+	}
+	for _, ord := range sortedKeys(x.loopCoverPCs) {
+		x.obls = append(x.obls, &Obligation{Func: x.fi.Name, Name: x.uniq(fmt.Sprintf("%s#cover#loop%s", x.fi.Name, ord)), Kind: "cover", Hyps: []*Term{Or(x.loopCoverPCs[ord]...)}, Goal: False, Mode: x.mode, ExpectSat: true,
+			Text: "loop body reachable under its invariant (on some path)", Pos: x.loopCoverPos[ord], LemmaIndex: -1})
 	}
 	for _, tag := range sortedKeys(x.coverPCs) {
 		x.obls = append(x.obls, &Obligation{Func: x.fi.Name, Name: x.uniq(fmt.Sprintf("%s#cover#return%s", x.fi.Name, tag)), Kind: "cover", Hyps: []*Term{Or(x.coverPCs[tag]...)}, Goal: False, Mode: x.mode, ExpectSat: true, Text: "return reachable (on some path)", Pos: x.coverPos[tag], LemmaIndex: -1})
@@ -2076,6 +2082,27 @@ func (x *Exec) runLoop(s *State, entry *State, node ast.Node, bodyNode ast.Node,
 		enterBody(b)
 	}
 	aliases(b)
+	if !x.suppress && lc.spec != nil {
+		// vacuity of the loop contract: invariant and loop condition together must be satisfiable on some path that
+		// reaches the loop, otherwise everything proved about the body is empty (only `unsat` is a failure); a loop the
+		// contract declares unreachable (`dead loopN`) must be unreachable
+		isDead := false
+		for _, d := range x.c.Dead {
+			if d == "loop"+ord {
+				isDead = true
+			}
+		}
+		if isDead {
+			x.oblige(b, "dead", "loop"+ord, False, "this loop is declared unreachable under the contract", x.c.Pos)
+		} else {
+			if x.loopCoverPCs == nil {
+				x.loopCoverPCs = map[string][]*Term{}
+				x.loopCoverPos = map[string]string{}
+			}
+			x.loopCoverPCs[ord] = append(x.loopCoverPCs[ord], And(b.pc...))
+			x.loopCoverPos[ord] = fmt.Sprintf("%s:%d", x.fi.File, x.u.Fset.Position(bodyNode.Pos()).Line)
+		}
+	}
 	o := x.execBlock(b, body, entry)
 	ends := x.merge(append(o.normal, o.cont...))
 	for _, e := range ends {
